@@ -125,6 +125,7 @@ type c18In struct {
 	End      string        `json:"end,omitempty"`      // e2e: drop (server resets) | srvclose (server sends </stream:stream>) | disconnect (Client.Disconnect)
 	Hist     []c18HistStep `json:"hist,omitempty"`     // re/hist: the sessions of the history, each with how it ends and how the next one is established
 	Suffix   []int         `json:"suffix,omitempty"`   // model only: what the schedule goes on offering (0 tick, 1 quit)
+	HBlock   int           `json:"hblock,omitempty"`   // e2e: the application's Disconnected handler blocks for this many intervals (0: returns at once)
 	Obs      *c18Obs       `json:"observed,omitempty"` // filled by Run
 }
 
@@ -140,7 +141,7 @@ func (c18) Workers() int  { return 8 }
 // driver then finds the case through the per-worker journal.
 func (c18) Journal() bool { return true }
 func (c18) Rule() string {
-	return "keepalive goroutine (VerifKeepalive) on a recording stub transport, intervals 1-10 ms: run for T then close quit; quit closed at a random phase of the ticker (0-5 intervals + 0-99 %, incl. exactly on a tick); quit closed before the goroutine starts; Ping failing at the k-th call for every k in 1..10 x interval; interval 0 / negative. Real XMPPTransport over loopback TCP (scripted server records every byte after the stream header): healthy run, server resets / closes the connection after reading n bytes (Close waiting out its timeout or answered at once). Real XMPPTransport over a scripted net.Conn: every conn.Write / conn.Close call, scripted write results (short and over-long counts; errors of every KIND: plain, a net.Error with Timeout() true as an expired write deadline or ETIMEDOUT gives, a temporary net.Error, io.EOF, os.ErrDeadlineExceeded, io.ErrShortWrite; after an error the connection stays dead for writing IN THE SAME WAY while reads block: whatever the kind, the keep-alive could not be written, so Close must follow and the loss be reported), with and without a real Client receive loop blocked on the same connection and sharing quit: the connection must get closed after the failed keep-alive and the loss be reported (ErrorHandler, Disconnected). End to end: real Client.Connect (KeepaliveInterval 2-5 ms) against the scripted XMPP server (SASL PLAIN + bind), session up for T, then ended by a server reset / the server's </stream:stream> / Client.Disconnect at a random phase; Ping and Close calls logged by a wrapper around the client's transport, keep-alive bytes counted at the server; after the Disconnected event + grace nothing may be pinged for 10 more intervals; sessions ended by Client.Disconnect with a server that is slow to answer the closing tag (a TCP relay withholds its answers and records what the client writes; Close waits ConnectTimeout, 1 s): from the call of Disconnect on (+ half an interval) no Ping, and nothing but at most the one keep-alive already under way behind the client's own </stream:stream>; sessions ended by a server <stream:error/> with application callbacks that BLOCK (the StateStreamError handler for 6.5 intervals, the error callback for 2; they run synchronously in the receive loop): from the moment the stream error is received (+ half an interval) no Ping call and no keep-alive byte at the server, although the handlers are still running; the same over real STARTTLS with the certificate verified (RootCAs) and with InsecureSkipVerify: the keep-alive bytes must show up in the DECRYPTED stream at the server, the raw socket must carry nothing but TLS records, the session must not be torn down while it is up. WebSocket transport end to end (loopback nhooyr.io/websocket server, RFC 7395 open exchange, keepalive + receive loop started as Client.Connect does): pings answered for T, then the TCP connection underneath is reset / closed: the failed keep-alive (a WebSocket ping control frame, not whitespace: only the closed-so-that-the-loss-is-reported clause is checked there) the loss must be reported exactly once (ErrorHandler + Disconnected) by whichever path notices first - the transport's reader or the failing keep-alive, which then calls Close - and the keep-alive loop be over; and a peer that goes SILENT without closing (a TCP relay stops forwarding; reads just block): only the keep-alive can notice, its ping times out after the library's 5 s, Close follows, the loss is reported once. Sessions on ONE Client object (the Transport is re-used by Resume; every Ping/Close logged with its goroutine, keep-alive bytes counted per server connection): drop then Resume; a stream error during which the keep-alive fails while the receiver sits in Close (ConnectTimeout 1 s), then Resume: the Close entered for session 1 must not close session 2's connection; a stream error whose StateStreamError handler does what a StreamManager does (Disconnect, back-off, Resume, returning only when the new session is up): no keep-alive of the dead session on ANY connection of the client from the stream error until the new session is up; the loop HELD at the entry of transport.Ping (i.e. past its poll of quit: where the scheduler may stop it) while the session ends and the client is resumed: that one ping may go out, on the new connection, and is the only one; held again after a refused re-dial so that the ping fails for want of a connection, and at the entry of Close while a second re-dial succeeds: the loop must not answer that failure with Close (it would close the new session); a keep-alive that fails towards a peer gone silent (TCP relay frozen, failure injected at the Transport boundary) whose Close is still waiting for the peer's closing tag (ConnectTimeout 1 s) when the connection is reset and the client resumed: when that Close finally acts, the second session's transport must be untouched - its keep-alives go on being written on ITS connection, nothing closes or forgets it; a PostConnectHook that fails (Connect returns its error: the session must not be left up without keep-alive and receiver, and the client's state must be Disconnected again); a PostResumeHook that fails once: exactly one keep-alive loop per established session, none left by the failed attempt, its session closed. HISTORIES of 2-4 sessions on one Client object (each ended by a server reset / Disconnect answered at once / Disconnect with a server slow to answer the closing tag / the server's closing tag; the next one established by Resume or Connect, at once or after a pause of 2-6 intervals): for EVERY session of the history, not only the first, no Ping by its loop once it is over (one already under way tolerated for Disconnect), at most one keep-alive byte behind the client's own </stream:stream> on its connection, at most one goroutine pinging while it is up and at most 1.5 x up-time/interval + 3 pings, and it is not reported lost before somebody ends it. A negative KeepaliveInterval through NewClient/Connect (a crash of the library's goroutine is found through the crash journal). WebSocket: Disconnect while a keep-alive ping awaits its pong (the failed ping is answered with a second Close, which must not panic). The liveness bound applies to windows of at least 6 intervals and 30 ms. The model receives the observed schedule (successful pings before the terminating event, how the run ended) plus a random continuation and must reproduce the ordered log ping-ok/ping-failed/Close/loop-over, the number of keep-alives the server reads, the calls on the connection and the reporting of the loss. A keep-alive is compared as a CLASS: any non-empty run of XML white space (space, tab, CR, LF) written by one Ping, on the connection and in the stream the server reads; what happens for an interval <= 0 is outside the property and not compared beyond nothing-sent-nothing-closed; distinct = scenario parameters; non-trivial = at least 2 pings before the terminating event"
+	return "keepalive goroutine (VerifKeepalive) on a recording stub transport, intervals 1-10 ms: run for T then close quit; quit closed at a random phase of the ticker (0-5 intervals + 0-99 %, incl. exactly on a tick); quit closed before the goroutine starts; Ping failing at the k-th call for every k in 1..10 x interval; interval 0 / negative. Real XMPPTransport over loopback TCP (scripted server records every byte after the stream header): healthy run, server resets / closes the connection after reading n bytes (Close waiting out its timeout or answered at once). Real XMPPTransport over a scripted net.Conn: every conn.Write / conn.Close call, scripted write results (short and over-long counts; errors of every KIND: plain, a net.Error with Timeout() true as an expired write deadline or ETIMEDOUT gives, a temporary net.Error, io.EOF, os.ErrDeadlineExceeded, io.ErrShortWrite; after an error the connection stays dead for writing IN THE SAME WAY while reads block: whatever the kind, the keep-alive could not be written, so Close must follow and the loss be reported), with and without a real Client receive loop blocked on the same connection and sharing quit: the connection must get closed after the failed keep-alive and the loss be reported (ErrorHandler, Disconnected). End to end: real Client.Connect (KeepaliveInterval 2-5 ms) against the scripted XMPP server (SASL PLAIN + bind), session up for T, then ended by a server reset / the server's </stream:stream> / Client.Disconnect at a random phase; Ping and Close calls logged by a wrapper around the client's transport, keep-alive bytes counted at the server; after the Disconnected event + grace nothing may be pinged for 10 more intervals; sessions ended by Client.Disconnect with a server that is slow to answer the closing tag (a TCP relay withholds its answers and records what the client writes; Close waits ConnectTimeout, 1 s): from the call of Disconnect on (+ half an interval) no Ping, and nothing but at most the one keep-alive already under way behind the client's own </stream:stream>; sessions ended by a server <stream:error/> with application callbacks that BLOCK (the StateStreamError handler for 6.5 intervals, the error callback for 2; they run synchronously in the receive loop): from the moment the stream error is received (+ half an interval) no Ping call and no keep-alive byte at the server, although the handlers are still running; the same over real STARTTLS with the certificate verified (RootCAs) and with InsecureSkipVerify: the keep-alive bytes must show up in the DECRYPTED stream at the server, the raw socket must carry nothing but TLS records, the session must not be torn down while it is up. WebSocket transport end to end (loopback nhooyr.io/websocket server, RFC 7395 open exchange, keepalive + receive loop started as Client.Connect does): pings answered for T, then the TCP connection underneath is reset / closed: the failed keep-alive (a WebSocket ping control frame, not whitespace: only the closed-so-that-the-loss-is-reported clause is checked there) the loss must be reported exactly once (ErrorHandler + Disconnected) by whichever path notices first - the transport's reader or the failing keep-alive, which then calls Close - and the keep-alive loop be over; and a peer that goes SILENT without closing (a TCP relay stops forwarding; reads just block): only the keep-alive can notice, its ping times out after the library's 5 s, Close follows, the loss is reported once. Sessions on ONE Client object (the Transport is re-used by Resume; every Ping/Close logged with its goroutine, keep-alive bytes counted per server connection): drop then Resume; a stream error during which the keep-alive fails while the receiver sits in Close (ConnectTimeout 1 s), then Resume: the Close entered for session 1 must not close session 2's connection; a stream error whose StateStreamError handler does what a StreamManager does (Disconnect, back-off, Resume, returning only when the new session is up): no keep-alive of the dead session on ANY connection of the client from the stream error until the new session is up; the loop HELD at the entry of transport.Ping (i.e. past its poll of quit: where the scheduler may stop it) while the session ends and the client is resumed: that one ping may go out, on the new connection, and is the only one; held again after a refused re-dial so that the ping fails for want of a connection, and at the entry of Close while a second re-dial succeeds: the loop must not answer that failure with Close (it would close the new session); a keep-alive that fails towards a peer gone silent (TCP relay frozen, failure injected at the Transport boundary) whose Close is still waiting for the peer's closing tag (ConnectTimeout 1 s) when the connection is reset and the client resumed: when that Close finally acts, the second session's transport must be untouched - its keep-alives go on being written on ITS connection, nothing closes or forgets it; a PostConnectHook that fails (Connect returns its error: the session must not be left up without keep-alive and receiver, and the client's state must be Disconnected again); a PostResumeHook that fails once: exactly one keep-alive loop per established session, none left by the failed attempt, its session closed. HISTORIES of 2-4 sessions on one Client object (each ended by a server reset / Disconnect answered at once / Disconnect with a server slow to answer the closing tag / the server's closing tag; the next one established by Resume or Connect, at once or after a pause of 2-6 intervals): for EVERY session of the history, not only the first, no Ping by its loop once it is over (one already under way tolerated for Disconnect), at most one keep-alive byte behind the client's own </stream:stream> on its connection, at most one goroutine pinging while it is up and at most 1.5 x up-time/interval + 3 pings, and it is not reported lost before somebody ends it. The application's Disconnected handler as a dimension of every session end (histories: each session's handler returns at once / blocks for 3-8 intervals / blocks until the harness has watched the connection for 3-8 intervals and releases it; single-session end-to-end cases ended by reset, server close and Disconnect with a handler blocking 4-8 intervals; stream error with blocking handlers above): the session is over when the handler is ENTERED (quit is closed before the loss is reported, C18_session_end_closes_quit / C18_quit_before_callbacks), so from then (+ half an interval, one ping under way tolerated) no Ping while the handler is still running. A negative KeepaliveInterval through NewClient/Connect (a crash of the library's goroutine is found through the crash journal). WebSocket: Disconnect while a keep-alive ping awaits its pong (the failed ping is answered with a second Close, which must not panic). The liveness bound applies to windows of at least 6 intervals and 30 ms. The model receives the observed schedule (successful pings before the terminating event, how the run ended) plus a random continuation and must reproduce the ordered log ping-ok/ping-failed/Close/loop-over, the number of keep-alives the server reads, the calls on the connection and the reporting of the loss. A keep-alive is compared as a CLASS: any non-empty run of XML white space (space, tab, CR, LF) written by one Ping, on the connection and in the stream the server reads; what happens for an interval <= 0 is outside the property and not compared beyond nothing-sent-nothing-closed; distinct = scenario parameters; non-trivial = at least 2 pings before the terminating event"
 }
 
 func c18Suffix(r *rand.Rand) []int {
@@ -277,6 +278,10 @@ func (c18) Gen(r *rand.Rand, tier string) []interface{} {
 		for _, end := range []string{"drop", "srvclose", "disconnect"} {
 			add(&c18In{Kind: "e2e", End: end, IvUs: 1000 * (2 + r.Intn(4)), Ticks: 6 + r.Intn(10), PhasePct: r.Intn(100)})
 		}
+	}
+	// ... with a Disconnected handler that takes several intervals to return (as a StreamManager's does)
+	for _, end := range []string{"drop", "srvclose", "disconnect"} {
+		add(&c18In{Kind: "e2e", End: end, HBlock: 4 + r.Intn(5), IvUs: 1000 * (3 + r.Intn(4)), Ticks: 6 + r.Intn(8), PhasePct: r.Intn(100)})
 	}
 	// ... by a stream error from the server, with application callbacks that take several intervals
 	// (XMPPTransport.Close then sits out ConnectTimeout, 1 s: few cases)
@@ -1189,10 +1194,25 @@ func runKeepaliveE2E(in *c18In, attempt int) (Sx, *c18Obs) {
 		if xmpp.VerifEventState(e) == xmpp.StateDisconnected {
 			mu.Lock()
 			discEvents++
+			first := discEvents == 1 && in.HBlock > 0
+			if first {
+				serrAt = time.Now() // the loss is being reported: the session is over, quit was closed before
+			}
 			mu.Unlock()
 			select {
 			case discCh <- struct{}{}:
 			default:
+			}
+			if first {
+				// the application's handler takes its time (a StreamManager's returns when the reconnection is through)
+				time.Sleep(iv / 2) // a ping already under way may still complete
+				if logs := srvRef.snapshot(); len(logs) > 0 {
+					w, _ := kaKeepaliveBytes(logs[0].ClearBy)
+					mu.Lock()
+					serrSrv = len(w)
+					mu.Unlock()
+				}
+				time.Sleep(time.Duration(in.HBlock) * iv)
 			}
 		}
 		return nil
@@ -1261,7 +1281,8 @@ func runKeepaliveE2E(in *c18In, attempt int) (Sx, *c18Obs) {
 		grace = 40 * time.Millisecond
 	}
 	time.Sleep(grace)
-	if in.End != "serr" && in.End != "discslow" {
+	hblock := in.HBlock > 0 && in.End != "serr" && in.End != "discslow"
+	if in.End != "serr" && in.End != "discslow" && !hblock {
 		rec.add(kaReturn) // from here on the keep-alive loop must be gone
 	}
 	atEnd := 0
@@ -1287,8 +1308,8 @@ func runKeepaliveE2E(in *c18In, attempt int) (Sx, *c18Obs) {
 		mu.Unlock()
 		evs = kaInsertMarker(evs, at.Add(iv/2))
 	}
-	if in.End == "serr" {
-		// the session was over when the stream error arrived, long before the callbacks returned
+	if in.End == "serr" || hblock {
+		// the session was over when the stream error arrived / the loss was reported, long before the callbacks returned
 		mu.Lock()
 		at, n := serrAt, serrSrv
 		mu.Unlock()
@@ -1743,6 +1764,9 @@ func (c18) Oracle(inp interface{}, obs Sx) (string, string) {
 				if in.Kind == "e2e" && in.End == "discslow" {
 					return fmt.Sprintf("the application called Disconnect, yet keep-alives went on while Close waited for the server's closing tag (log %v: 3 = Disconnect called + half an interval)", codes), "ping-after-session-end"
 				}
+				if in.Kind == "e2e" && in.HBlock > 0 && in.End != "serr" && in.End != "discslow" {
+					return fmt.Sprintf("session ended by %s: keep-alives went on after the loss had been reported, while the application's Disconnected handler was still running (%d intervals); quit is to be closed BEFORE the loss is reported (log %v: 3 = Disconnected handler entered + half an interval)", in.End, in.HBlock, codes), "ping-after-session-end"
+				}
 				if in.Kind == "e2e" && in.End == "serr" {
 					return fmt.Sprintf("session ended by the server's stream error, yet keep-alives went on while the application's handlers were running (log %v: 3 = stream error received + half an interval)", codes), "ping-after-session-end"
 				}
@@ -1976,7 +2000,7 @@ func (c18) Key(inp interface{}) (string, bool) {
 	if in.Kind == "conn" && in.Recv {
 		hist("conn-with-receive-loop")
 	}
-	k := fmt.Sprintf("%s iv%d t%d p%d k%d cut%d fin%v slow%v %v recv%v %s", in.Kind, in.IvUs, in.Ticks, in.PhasePct, in.FailAt, in.CutAfter, in.Fin, in.Slow, in.Script, in.Recv, in.End+in.TLS+in.Variant+in.histKey())
+	k := fmt.Sprintf("%s iv%d t%d p%d k%d cut%d fin%v slow%v %v recv%v %s", in.Kind, in.IvUs, in.Ticks, in.PhasePct, in.FailAt, in.CutAfter, in.Fin, in.Slow, in.Script, in.Recv, in.End+in.TLS+in.Variant+in.histKey()+fmt.Sprintf("hb%d", in.HBlock))
 	if in.Kind == "re" {
 		hist("re:" + in.Variant)
 		for i, st := range in.Hist {
